@@ -3,9 +3,13 @@ ASSUMPTIONS = ['mpatch/*: Json = bounded model DOM (null / int in {0,1} / object
                'mpatch: what is verified is the anchored recursion in mergepatch.hpp; basic_json::find/erase/try_emplace themselves are not part of this kernel (C09)']
 STUB_NOTES = ['MJ model DOM: value semantics by deep copy into a static arena of 96 nodes (overflow is reported as a failed bound assertion, never ignored)']
 CLANG_EXTRA_BY_DEPTH = True
+REC = ['_ZN8jsoncons10mergepatch6detail18apply_merge_patch_I2MJEET_RS4_RKS4_', '_ZN8jsoncons10mergepatch9from_diffI2MJEET_RKS3_S5_']
 def jobs(tier):
     J = []
     for d in ([1, 2, 3] if tier == 'thorough' else [1, 2]):
-        J.append(dict(id='apply_d%d' % d, harness='h_apply', props=['C16'], unwind=2 ** (d + 1) + 1, defs=dict(DEPTH=d), timeout=1200 if d > 2 else 600, mem_gb=8, desc='apply_merge_patch == RFC 7386 MergePatch', bound='all (target, patch) pairs of depth <= %d over keys {a,b}, leaves null/0/1/{}' % d))
-        J.append(dict(id='diff_d%d' % d, harness='h_diff', props=['C16'], unwind=2 ** (d + 1) + 1, defs=dict(DEPTH=d), timeout=1200 if d > 2 else 600, mem_gb=8, desc='apply(source, from_diff(source, target)) == target', bound='all (source, null-free target) pairs of depth <= %d' % d))
+        nn = 2 ** (d + 1) - 1
+        us = ['%s:%d' % (f, d + 2) for f in REC]   # the recursion of the code under test is bounded by the depth of the model DOM (+1 for the leaf call, +1 slack checked by the unwinding assertion)
+        for h, desc in (('h_apply', 'apply_merge_patch == RFC 7386 MergePatch'), ('h_diff', 'apply(source, from_diff(source, target)) == target for targets without null members')):
+            J.append(dict(id='%s_d%d' % (h[2:], d), harness=h, props=['C16'], unwind=nn + 2, unwindset=us, defs=dict(DEPTH=d), shim_defs=dict(DEPTH=d), timeout=1800 if d > 2 else 900, mem_gb=8,
+                          desc=desc, bound='all trees of depth <= %d over member names {a,b}, leaves null/0/1/{}' % d))
     return J
